@@ -14,7 +14,7 @@ RULE = (
     "remove} at every loop position. Reference model: (installed, signal value, tripped) folded over the history. Oracle: tripped at "
     "the start => the first message executed is the engine's wait_for and no plan message executes before a release (sig.put(ok) or "
     "remove) has happened; not tripped => the plan starts at once; after remove no environment release is needed for the plan to "
-    "proceed and the call returns; a trip after removal starts no suspension; no remove ever raises; "
+    "proceed and the call returns; a trip after removal starts no suspension; no remove ever raises. Scenario susp2: TWO real suspenders (signals sa, sb) on one engine, every history of <= 3 (thorough 4) trips/returns/removals before the call x both orders in which the environment brings the signals back x both iteration orders of the engine's suspender set (fixed hashes), plus one release/removal at every loop position: the first plan message executes only after every installed suspender that was tripped at the call has released or been removed; "
     "non-trivial = the plan was gated at start or a suspension was in effect when an operation arrived"
 )
 ASSUMPTIONS = _x1.X1_ASSUMPTIONS
@@ -30,12 +30,26 @@ def _hist(n):
     return out
 
 
+def _hist2(n, ops="TtOoRr"):
+    out = [""]
+    for k in range(1, n + 1):
+        out += ["".join(p) for p in itertools.product(ops, repeat=k)]
+    return out
+
+
+MENU2 = [("put", "sa", 0), ("put", "sb", 0), ("call", "R"), ("call", "r")]
 SPECS = {
-    "quick": [spec("suspreal", MENU, bound=1, pre=h, sleep=2) for h in _hist(2)] + [spec("suspreal", [], bound=0, pre=h, sleep=0) for h in _hist(3)],
+    "quick": [spec("suspreal", MENU, bound=1, pre=h, sleep=2) for h in _hist(2)]
+    + [spec("suspreal", [], bound=0, pre=h, sleep=0) for h in _hist(3)]
+    # two suspenders on one engine: every history of <= 3 trips/returns/removals, both release orders of the environment
+    + [spec("susp2", [], bound=0, pre=h, order=o, ho=ho) for h in _hist2(3) for o in ("ab", "ba") for ho in ("ab", "ba")]
+    + [spec("susp2", MENU2, bound=1, pre=h, order=o, ho=ho) for h in ("T", "t", "Tt", "tT") for o in ("ab", "ba") for ho in ("ab", "ba")],
     "thorough": [spec("suspreal", MENU, bound=1, pre=h, sleep=s) for h in _hist(3) for s in (0, 2)]
     + [spec("suspreal", [], bound=0, pre=h, sleep=2) for h in _hist(4)]
     + [spec("suspreal", MENU + [("call", "X")], bound=2, pre=h, sleep=2) for h in ("I", "IT", "TI", "ITR")]
-    + [spec("suspreal", MENU, bound=1, pre=h, sleep=2, a=1) for h in _hist(2)],
+    + [spec("suspreal", MENU, bound=1, pre=h, sleep=2, a=1) for h in _hist(2)]
+    + [spec("susp2", [], bound=0, pre=h, order=o, sleep=s, ho=ho) for h in _hist2(4) for o in ("ab", "ba") for s in (0, 2) for ho in ("ab", "ba")]
+    + [spec("susp2", MENU2, bound=2, pre=h, order=o, sleep=s, ho=ho) for h in _hist2(2) for o in ("ab", "ba") for s in (0, 2) for ho in ("ab", "ba")],
 }
 
 
@@ -58,11 +72,64 @@ def _fold(ops, installed=False, sigval=0, tripped=False):
     return installed, sigval, tripped
 
 
+def _oracle2(scn, obs):
+    """Two suspenders: the plan starts only when no installed suspender that was tripped at the call is still tripped."""
+    out = []
+    for op, exc in getattr(scn, "log", []):
+        if exc is not None:
+            out.append((f"operation-raised:{op}", f"{op} raised {exc}"))
+    inst = {k: True for k in scn.params.get("install", "ab")}
+    high = {"a": False, "b": False}
+    for op in scn.params.get("pre", ""):
+        if op in "Tt":
+            high["a" if op == "T" else "b"] = True
+        elif op in "Oo":
+            high["a" if op == "O" else "b"] = False
+        elif op in "Rr":
+            inst["a" if op == "R" else "b"] = False
+    holding = {k for k in "ab" if inst.get(k) and high[k]}  # suspenders gating the start
+    gated = bool(holding)
+    obs.extra["gated"] = gated
+    tl = obs.timeline
+    s0 = next(i for i, t in enumerate(tl) if t[0] == "call" and t[1] == "RE")
+    r0 = next((i for i, t in enumerate(tl) if t[0] == "ret" and t[1] == "RE"), len(tl))
+    plan_cmds = {"open_run", "checkpoint", "trigger", "wait", "create", "read", "save", "close_run"}
+    first = True
+    started = False
+    for t in tl[s0:r0]:
+        if t[0] == "put" and t[1] in ("sa", "sb") and not t[2]:
+            holding.discard(t[1][1])
+        elif t[0] == "op":
+            if t[2] is not None:
+                out.append((f"operation-raised:{t[1]}", f"{t[1]} raised {t[2]}"))
+            if t[1] in "Rr":
+                holding.discard("a" if t[1] == "R" else "b")
+        elif t[0] == "msg":
+            if first:
+                first = False
+                if gated and t[2] != "wait_for":
+                    out.append(("not-gated-at-start", f"suspender(s) {sorted(holding)} tripped before the call, but the first message executed is {t[2]}"))
+                if not gated and t[2] == "wait_for":
+                    out.append(("gated-without-trip", "the engine waits although no installed suspender is tripped"))
+            if t[2] in plan_cmds and not started:
+                started = True
+                if holding:
+                    out.append(("plan-started-while-tripped", f"{t[2]} executed while pre-tripped suspender(s) {sorted(holding)} had not released"))
+    c0 = obs.calls[0]
+    if c0["exc"] is not None:
+        out.append((f"call-raised:{type(c0['exc']).__name__}", f"RE() raised {type(c0['exc']).__name__}: {str(c0['exc'])[:120]}"))
+    elif not any(t[0] == "plan_end" and t[1] == "returned" for t in tl[s0:r0]):
+        out.append(("plan-did-not-complete", "RE() returned but the plan generator did not finish"))
+    return out
+
+
 def oracle(scn, obs, ref, schedule):
     out = []
     if obs.outcome != "ok":
         out.append((f"harness-outcome:{obs.outcome}", f"session ended {obs.outcome} (caller stuck with engine state {obs.calls[-1]['state_after'] if obs.calls else '?'})"))
         return out
+    if scn.id == "susp2":
+        return _oracle2(scn, obs)
     pre = scn.params.get("pre") or ("I" if scn.params.get("install", 1) else "")
     for op, exc in getattr(scn, "log", []):
         if exc is not None:
